@@ -439,7 +439,14 @@ def oracle(inp):
         return f"generators started {started} but terminated {ended}"
     if not closed:
         return "transport not closed at the end of the client task"
-    # a timeout is thrown only if no complete request was available before the deadline: checked through arrival times
+    # the peer ended the connection (GeneratorExit delivered although the handler never closes): nothing may be missing
+    gen_events = [ev for ev in log if ev[0] in (4, 5)]
+    if oc != 2 and not any(a[0] in (2, 3) for a in acts) and gen_events and gen_events[-1][0] == 5 and outcome == [] \
+            and got != exp:
+        return f"the peer closed after {len(exp)} complete frames but the handler only saw {got}"
+    # a TimeoutError needs a finite yielded timeout
+    if any(ev[0] == 3 and ev[2] == [2] for ev in log) and not any(a[0] in (0, 3) and a[1] != [] for a in acts):
+        return "TimeoutError thrown although no finite timeout was ever yielded"
     return None
 
 
